@@ -152,7 +152,7 @@ class World:
 
 def scenario(rng, w):
     """structured multi-step histories that random choice rarely assembles"""
-    kind = rng.choice(["reconfirm", "hostchange", "aba", "reprobe-update", "late-conflicts", "late-conflicts", "reprobe-conflict-update",
+    kind = rng.choice(["reconfirm", "hostchange", "aba", "abab", "reprobe-update", "late-conflicts", "late-conflicts", "reprobe-conflict-update",
                        "alt-reprobe-conflict"])
     if kind == "reprobe-conflict-update":
         w.conflict_host_exact()     # registers under the -2 candidate first, so that the re-probe half an hour later changes the hostname
@@ -232,6 +232,29 @@ def scenario(rng, w):
             w.update(same=True, identical=rng.random() < 0.5)
         w.settle()
         w.query()
+    elif kind == "abab":
+        # serving A; update(B); update(A) while B's probe is pending (cancels it); later update(B) again: B must be probed
+        # afresh and A withdrawn before B is announced
+        w.settle()
+        a = w.last
+        w.update()
+        b = w.last
+        w.now += rng.choice([0, 1, 500, 1999])
+        w.lines.append("ADV %d" % w.now)
+        w.last = a
+        w.update(same=True, identical=True)
+        if rng.random() < 0.5:
+            w.settle()
+        else:
+            w.now += rng.choice([0, 1, 2500])
+            w.lines.append("ADV %d" % w.now)
+        w.last = b
+        w.update(same=True, identical=True)
+        w.settle()
+        w.query()
+        if rng.random() < 0.5:
+            w.lines.append("DEL 1")
+            w.alive = False
     elif kind == "aba":
         w.settle()
         w.update()
